@@ -10,7 +10,8 @@
 (*                   terminals = SQL tokens and nonterminals "<Name>")     *)
 (*           budget  how many more FEATURES (non-default alternatives) the *)
 (*                   derivation may still choose                           *)
-(*           mplan, muts   how many Mutate steps this sentence gets / got  *)
+(*           mplan, mks, muts   the planned Mutate steps (how many, which    *)
+(*                   kinds) and how many were done                         *)
 (*           trail   the productions used (history; it is the coverage     *)
 (*                   evidence and the blame vocabulary of a finding)       *)
 (*   actions Expand  replace the LEFTMOST nonterminal by one alternative   *)
@@ -131,7 +132,7 @@ NumAlts ==
 
 \* integer-like argument of a function: every boundary class, wrong types too
 IntArgAlts == << D(<<"1">>), V(<<"0">>), V(<<"-1">>), V(<<"2">>), V(<<"9223372036854775807">>), V(<<"-9223372036854775808">>),
-                 V(<<"2147483648">>), V(<<"-2147483649">>), V(<<"1000000000">>), V(<<"400">>), V(<<"-400">>), V(<<"1.5">>), V(<<"1e308">>),
+                 V(<<"2147483648">>), V(<<"-2147483649">>), V(<<"400">>), V(<<"-400">>), V(<<"1.5">>), V(<<"1e308">>),
                  V(<<"NULL">>), V(<<"i">>), V(<<"'x'">>), V(<<"'3'">>), V(<<"TRUE">>), V(<<"<Param>">>) >>
 
 TextLits == << F(<<"''">>), F(<<"'it''s'">>), F(<<"'%'">>), F(<<"'_'">>), F(<<"'\\'">>), F(<<"'a\\u00e9\\u4e2d\\ud83d\\ude00z'">>),
@@ -631,23 +632,23 @@ Junk == {"'unterminated", "\"unterminated", "`", "/*", "*/", "--", "$", "$$", "?
 
 MutKinds == {"drop", "dup", "swap", "replace", "paren", "trunc", "glue"}
 
-MutationsOf(f, j) ==
+MutationsOf(f, kind) ==
   LET n == Len(f)
       Cut(a, b) == IF a > b THEN <<>> ELSE SubSeq(f, a, b)
-  IN    { [k |-> "drop",    f |-> Cut(1, i - 1) \o Cut(i + 1, n)] : i \in 1..n }
-   \cup { [k |-> "dup",     f |-> Cut(1, i) \o Cut(i, n)] : i \in 1..n }
-   \cup { [k |-> "swap",    f |-> Cut(1, i - 1) \o <<f[i + 1], f[i]>> \o Cut(i + 2, n)] : i \in 1..(n - 1) }
-   \cup { [k |-> "replace", f |-> [f EXCEPT ![i] = j]] : i \in 1..n }
-   \cup { [k |-> "paren",   f |-> Cut(1, i - 1) \o <<p>> \o Cut(i, n)] : i \in 1..(n + 1), p \in {"(", ")"} }
-   \cup { [k |-> "trunc",   f |-> Cut(1, i)] : i \in 1..(n - 1) }
-   \cup { [k |-> "glue",    f |-> Cut(1, i - 1) \o <<f[i] \o f[i + 1]>> \o Cut(i + 2, n)] : i \in 1..(n - 1) }
+  IN CASE kind = "drop"    -> { Cut(1, i - 1) \o Cut(i + 1, n) : i \in 1..n }
+       [] kind = "dup"     -> { Cut(1, i) \o Cut(i, n) : i \in 1..n }
+       [] kind = "swap"    -> { Cut(1, i - 1) \o <<f[i + 1], f[i]>> \o Cut(i + 2, n) : i \in 1..(n - 1) }
+       [] kind = "replace" -> { [f EXCEPT ![i] = j] : i \in 1..n, j \in JunkTokens }
+       [] kind = "paren"   -> { Cut(1, i - 1) \o <<p>> \o Cut(i, n) : i \in 1..(n + 1), p \in {"(", ")"} }
+       [] kind = "trunc"   -> { Cut(1, i) : i \in 1..(n - 1) }
+       [] kind = "glue"    -> { Cut(1, i - 1) \o <<f[i] \o f[i + 1]>> \o Cut(i + 2, n) : i \in 1..(n - 1) }
 
 -----------------------------------------------------------------------------
 (* The derivation system *)
 
-VARIABLE junk      \* the token a "replace" mutation of this sentence uses (chosen with the plan)
+VARIABLE mks       \* the kinds of the planned mutations, in order (chosen with the plan)
 VARIABLE done      \* the sentence has been handed to the implementation (Call)
-allvars == <<pre, rest, budget, vbudget, mplan, muts, trail, junk, done>>
+allvars == <<pre, rest, budget, vbudget, mplan, muts, trail, mks, done>>
 
 \* The sentential form is kept as  pre \o rest : pre holds terminals only, rest is empty or begins with the
 \* leftmost nonterminal (so that Expand does not have to search for it).
@@ -667,7 +668,7 @@ Init == /\ pre = <<>>
         /\ \E s \in Starts : rest = <<s>>
         /\ budget = Budget /\ vbudget = VBudget
         /\ mplan \in 0..MaxMut
-        /\ junk \in (IF MaxMut = 0 THEN {"-"} ELSE JunkTokens)
+        /\ mks \in [1..MaxMut -> MutKinds]      \* always MaxMut long so that mplan is uniform in random walks
         /\ muts = 0
         /\ trail = <<>>
         /\ done = FALSE
@@ -683,7 +684,7 @@ Expand ==
        /\ pre' = n.p /\ rest' = n.r
        /\ budget' = budget - a.c /\ vbudget' = vbudget - a.v
        /\ trail' = Append(trail, <<rest[1], k>>)
-  /\ UNCHANGED <<mplan, muts, junk, done>>
+  /\ UNCHANGED <<mplan, muts, mks, done>>
 
 ExpandDeep ==
   /\ HasNT
@@ -692,28 +693,27 @@ ExpandDeep ==
        LET m == Split(DeepForm(sh, n)) IN
        /\ pre' = m.p /\ rest' = m.r
        /\ trail' = Append(trail, <<"<Deep>", sh, n>>)
-  /\ UNCHANGED <<budget, vbudget, mplan, muts, junk, done>>
+  /\ UNCHANGED <<budget, vbudget, mplan, muts, mks, done>>
 
 Mutate ==
   /\ ~HasNT /\ muts < mplan
   /\ Len(pre) \in 1..MutMaxLen
-  /\ \E m \in MutationsOf(pre, junk) :
-       /\ pre' = m.f
-       /\ trail' = Append(trail, <<"mut", m.k>>)
+  /\ \E m \in MutationsOf(pre, mks[muts + 1]) : pre' = m
+  /\ trail' = Append(trail, <<"mut", mks[muts + 1]>>)
   /\ muts' = muts + 1
-  /\ UNCHANGED <<rest, budget, vbudget, mplan, junk, done>>
+  /\ UNCHANGED <<rest, budget, vbudget, mplan, mks, done>>
 
 \* a sentence that is too long to be mutated is emitted unmutated
 GiveUpMutation ==
   /\ ~HasNT /\ muts < mplan /\ Len(pre) \notin 1..MutMaxLen
   /\ mplan' = muts
-  /\ UNCHANGED <<pre, rest, budget, vbudget, muts, trail, junk, done>>
+  /\ UNCHANGED <<pre, rest, budget, vbudget, muts, trail, mks, done>>
 
 \* Call: the complete sentence is executed; the implementation must answer with an outcome in Allowed
 Call ==
   /\ Complete /\ ~done
   /\ done' = TRUE
-  /\ UNCHANGED <<pre, rest, budget, vbudget, mplan, muts, trail, junk>>
+  /\ UNCHANGED <<pre, rest, budget, vbudget, mplan, muts, trail, mks>>
 
 Next == Expand \/ ExpandDeep \/ Mutate \/ GiveUpMutation \/ Call
 Spec == Init /\ [][Next]_allvars
